@@ -40,6 +40,7 @@ THEOREMS = [
     "Optyx.Props.LPFastTie.extractLinearCoefficient_eq",
     "Optyx.Props.LPFastTie.extractConstantTerm_eq",
     "Optyx.Props.LPFastTie.aligned_iff",
+    "Optyx.Props.StateTie.accessors_text",
     "Optyx.Props.PinsC08.anchors",
 ]
 ASSUMPTIONS = [
